@@ -15,7 +15,6 @@ from __future__ import annotations
 
 import json
 import os
-import random
 import shutil
 from concurrent.futures import ThreadPoolExecutor
 
@@ -59,6 +58,19 @@ def _validate(traces, dev):
 
 
 IO_EVENTS = ("Open", "Write", "Flush", "Close")
+SMALL = ["g1", "g2", "g3", "g4", "g5"]
+
+
+def _inputs(with_big):
+    """Names of the grammars/models used.  thorough: textX's own grammar as a larger subject (about 100 writes
+    per metamodel export, 160 for the export of a grammar parsed as a model of it)."""
+    names = list(SMALL)
+    big = os.path.join(common.REPO, "textx", "textx.tx")
+    if with_big and os.path.exists(big):
+        with open(big, encoding="utf-8") as f:
+            drv.GRAMMARS["textx"] = (f.read(), drv.GRAMMARS["g5"][0])
+        names.append("textx")
+    return names
 
 
 def _first_run_io(trace):
@@ -72,7 +84,7 @@ def _first_run_io(trace):
     return out
 
 
-def _record(rep, rng, gens, gnames):
+def _record(rep, gens, gnames):
     """For every (generator, input, overwrite, pre-existing target): a clean run, then one run per I/O call
     observed in that clean run with the failure injected at that call."""
     work = tlc.scratch("vt-c31-run-")
@@ -137,7 +149,6 @@ def _judge(rep, traces, meta, devs):
 
 def run(rep):
     quick = rep.tier == "quick"
-    rng = random.Random(rep.seed)
     rep.rule = ("I->S: for each built-in generator x input, one run per (overwrite, pre-existing target, failing I/O "
                 "call) with an OSError injected at every open/write/flush/close call observed in a clean run, the "
                 "output directory listed, and a re-run without overwrite; each recorded as a trace and validated by "
@@ -155,8 +166,8 @@ def run(rep):
     tlc.require_ok(r, "MC_GenFile")
     rep.add_mc("MC_GenFile", r, INVS)
     devs = {f["deviation"]: f["id"] for f in common.open_findings(PID) if f["deviation"] in KNOWN_DEVS}
-    gnames = sorted(drv.GRAMMARS)
-    traces, meta = _record(rep, rng, drv.GENERATORS, gnames)
+    gnames = _inputs(with_big=not quick)
+    traces, meta = _record(rep, drv.GENERATORS, gnames)
     _judge(rep, traces, meta, devs)
     rep.exhaustive = True
     rep.bounds["traces"] = dict(count=len(traces), events=sum(len(t["events"]) for t in traces))
@@ -174,6 +185,7 @@ def replay(path):
     case = rec["case"]
     m = case["meta"]
     gen, g = m["subject"].split("/")
+    _inputs(with_big=(g == "textx"))
     work = tlc.scratch("vt-c31-replay-")
     try:
         s = drv.Subject(gen, g, work)
@@ -204,7 +216,7 @@ META = dict(
                 "followed by a directory listing and a re-run without overwrite, is recorded and validated by TLC as "
                 "a behaviour of the specification."),
     level_note=("Failures are injected at the `open` wrapper level (a failing call writes nothing); 5 small "
-                "grammars/models per generator; process kills and partial writes inside one write call are not "
+                "grammars/models per generator (thorough: plus textX's own grammar); process kills and partial writes inside one write call are not "
                 "modelled."),
     technique="TLC model checking of GenFile.tla + TLC trace validation of fault-injected generator runs",
 )
